@@ -474,6 +474,7 @@ func okPhiFalseInErrorsLoop(p *Prog, fn *ssa.Function, v ssa.Value) bool {
 }
 
 var c04Canaries = []Canary{
+	{Name: "r5-delayed-pointers-reset", ExpectKey: "C04.R8", Edits: []Edit{{File: "commands/command_filter_process.go", Find: "\t\t\t\tq = nil\n", Repl: "\t\t\t\tq = nil\n\t\t\t\tptrs = make(map[string]*lfs.Pointer)\n"}}},
 	{Name: "r4-no-pathspec-separator", ExpectKey: "C04.R10", Edits: []Edit{{File: "git/git.go", Find: "\targs = append(args, \"--\")\n\targs = append(args, paths...)", Repl: "\targs = append(args, paths...)"}}},
 	{Name: "r4-declined-leaves-empty-file", ExpectKey: "C04.R9", Edits: []Edit{{File: "lfs/gitfilter_smudge.go", Find: "\t\t\tfile.Seek(0, io.SeekStart)\n\t\t\tptr.Encode(file)\n\t\t\treturn err", Repl: "\t\t\treturn err"}}},
 	{Name: "inspect-wrong-path", ExpectKey: "C04.R1#checkout:inspects-the-path-it-writes", Edits: []Edit{{File: "commands/pull.go", Find: "	filepointer, err := lfs.DecodePointerFromFile(cwdfilepath)", Repl: "	filepointer, err := lfs.DecodePointerFromFile(p.Name)"}}},
